@@ -1,9 +1,75 @@
-import Model.Common
-/-! Oracle handlers for C05 (stub until the property's model exists). -/
+import Model.C03
+/-! Oracle handlers for C05: merge histories over a tiny token space; judge = one owner per token,
+sorted duplicate-free token lists, deterministic resolution with the documented winner, lookups
+never report inconsistent token information and never panic. -/
 namespace OracleC05
-open Common
+open Common Ring
 
-def handle (_cmd : String) (_f : List String) : String × String × String :=
-  ("unknown-cmd", "-", "-")
+def showD (d : Desc) : String := showDesc (C03.sortById d)
+
+def newer (o t : Inst) : Bool := o.ts > t.ts || (o.ts == t.ts && o.state == .LEFT && t.state != .LEFT)
+
+/-- last-writer-wins map before any conflict resolution, written independently of `C03.merge`
+(gossip merges only). -/
+def lwwUnion (this othern : Desc) : Desc :=
+  let upd := this.map fun t => match C03.get? othern t.id with
+    | some o => if newer o t then o else t
+    | none => t
+  upd ++ othern.filter fun o => (C03.get? this o.id).isNone && (o.ts > 0 || o.state == .LEFT)
+
+/-- the documented winner among claimants: not-leaving beats leaving, then the smaller id. -/
+def beats (a b : Inst) : Bool :=
+  let la := a.state == .LEAVING
+  let lb := b.state == .LEAVING
+  if la != lb then lb else a.id < b.id
+
+def expectedOwner (d : Desc) (tok : Nat) : Option String :=
+  let cl := d.filter fun i => i.state != .LEFT && i.tokens.contains tok
+  match cl with
+  | [] => none
+  | c :: cs => some (cs.foldl (fun w i => if beats i w then i else w) c).id
+
+def judge (cas : Bool) (this other st : Desc) : List String := Id.run do
+  let mut bad : List String := []
+  if !C03.uniqueIds st then bad := "duplicate-ids" :: bad
+  for i in st do
+    if !C03.sortedStrict i.tokens then bad := s!"tokens-not-sorted-unique:{i.id}" :: bad
+    if i.state == .LEFT && !i.tokens.isEmpty then bad := s!"left-holds-tokens:{i.id}" :: bad
+  if C03.conflictsExist st then bad := "token-held-by-two" :: bad
+  if !cas then
+    let pre := lwwUnion this (C03.normalize other)
+    -- when this merge had to resolve a collision, each token went to the documented winner
+    if C03.conflictsExist pre then
+      for t in C03.allTokens pre do
+        match expectedOwner pre t with
+        | some w =>
+          if (st.filter fun i => i.tokens.contains t).map (·.id) != [w] then bad := s!"wrong-winner:{t}" :: bad
+        | none => pure ()
+  return bad
+
+def handleStep (f : List String) : String × String × String :=
+  match f with
+  | [cas, now, this, other, st, chg, nres, lk] =>
+    match parseDesc this, parseDesc other, now.toInt?, parseDesc st with
+    | some this, some other, some now, some ist =>
+      let cas := cas == "1"
+      let m := C03.merge cas now this other
+      let ms := showD m.state
+      let mc := match m.change with | none => "nil" | some c => showD c
+      let diff := if ms == st && mc == chg then "-" else s!"state={ms} change={mc}"
+      let pre := C03.wf this
+      let j := if pre then judge cas this other ist else []
+      let j := if nres != "1" then s!"nondeterministic-merge:{nres}-results" :: j else j
+      let j := if lk != "inc=0,panic=0" then s!"lookup-broken:{lk}" :: j else j
+      let acc := (C03.normalize other).foldl C03.stepEntry { this := this, updated := [], tokCh := false }
+      let resolved := acc.tokCh && C03.conflictsExist acc.this
+      let tags := s!"cas={cas} resolved={resolved} prewf={pre} chg={m.change.isSome} n={min this.length 4}x{min other.length 4}"
+      (diff, if j.isEmpty then "-" else ",".intercalate j, tags)
+    | _, _, _, _ => ("bad-input", "-", "-")
+  | _ => ("bad-fields", "-", "-")
+
+def handle (cmd : String) (f : List String) : String × String × String :=
+  if cmd == "C05.step" then handleStep f
+  else ("unknown-cmd", "-", "-")
 
 end OracleC05
